@@ -78,6 +78,36 @@ def pick_op(case, tape):
         case.variables = gen_variables(case.schema, tape, op, stream="vars_mut")
 
 
+def dfs_orders(engine, case, plan, tape, out0):
+    """Small mutations: enumerate ALL completion orders of the suspended resolvers (DFS over the
+    scheduler's release decisions) and check the serial-order invariant and the response on each."""
+    from simv.harness import execute_once
+    from simv.checks.c15 import same_response  # data strictly, errors as a multiset (their order is free)
+    from simv.simloop import Script, next_script
+    n_calls = len([c for c in plan.calls if c.args is not None])
+    if plan.refused or not (2 <= n_calls <= 5):
+        return []
+    vs, prefix, n = [], [], 0
+    while True:
+        script = Script(prefix)
+        out = execute_once(engine, case.text, case.op_name, case.variables, plan, script, "script", 0, "gate", root_value=plan.root_value)
+        n += 1
+        if out.exc is not None:
+            vs.append(V("no_termination", "order %r: %r" % ([c for c, _ in script.log], out.exc)))
+            break
+        for v in order_check(case, plan, out):
+            v["detail"] = "[completion order %r] %s" % ([c for c, _ in script.log], v["detail"])
+            vs.append(v)
+        if not same_response(out.resp, out0.resp):
+            vs.append(V("order_dependent_response", "completion order %r changes the response" % ([c for c, _ in script.log],)))
+        nxt = next_script(script.log)
+        if nxt is None or n >= 130 or vs:
+            out0.c09_dfs = (n, nxt is None)
+            break
+        prefix = nxt
+    return vs
+
+
 def run_one(seed, preset=None, tier="quick", want_case=False):
     def schema_knobs(t):
         return {"mutation_pct": 100, "default_impl_pct": 15, "rename_roots_pct": 30, "root_default_impl": t.chance(30),
@@ -87,11 +117,16 @@ def run_one(seed, preset=None, tier="quick", want_case=False):
         return {"op_kinds": ("mutation",), "max_ops": t.choose([1, 1, 2]), "max_depth": 3, "max_sel": t.choose([5, 5, 8])}
 
     r = run_single(ID, seed, preset, want_case, schema_knobs=schema_knobs, doc_knobs=doc_knobs,
-                   faults_fn=faults_fn, extra_check=order_check, doc_post=doc_post, pick_op=pick_op)
+                   faults_fn=faults_fn, extra_check=order_check, doc_post=doc_post, pick_op=pick_op, post_engine=dfs_orders)
     plan, out = r["_plan"], r["_out"]
     is_mut = plan.op is not None and plan.op.op == "mutation"
     nested = any(len(c[0]) > 1 for c in out.rt.calls)
     r["nontrivial"] = bool(is_mut and not plan.refused and getattr(out, "c09_roots", 0) >= 2 and nested and not r["viol"])
+    dfs = getattr(out, "c09_dfs", None)
+    if dfs:
+        r["metrics"]["dfs_executions"] = dfs[0]
+        r["metrics"]["dfs_requests_exhausted" if dfs[1] else "dfs_requests_truncated"] = 1
+        r["evals"] = 1 + dfs[0]
     root_fail = [e for e in plan.errors if len(e.path) == 1]
     r["probes"].update({
         "mutation_executed": int(is_mut and not plan.refused),
